@@ -152,8 +152,8 @@ __CPROVER_requires(fsm->m_states[region_index]==CUR && state==CUR)       /* WF: 
 __CPROVER_requires(g_act[g_cur]==1 && (NXT==CUR || g_act[g_nxt]==0))        /* WF ledger (C03) */
 __CPROVER_assigns(g_phase, g_exc, g_guard_calls, fsm->m_states[region_index], g_act[g_cur], g_act[g_nxt])
 __CPROVER_ensures((has_pseudo_exit(T1) && !g_exit_active) ==> (__CPROVER_return_value==HANDLED_FALSE && g_phase==0 && g_guard_calls==0 && fsm->m_states[region_index]==CUR))  /*@ob C09,C01,C02.exit-point-row-inert-while-inactive */
-__CPROVER_ensures((!g_exc && __CPROVER_return_value==HANDLED_GUARD_REJECT) ==> (HAS_GUARD && g_phase==0 && fsm->m_states[region_index]==CUR && g_act[g_cur]==1))               /*@ob C02,C03,C01.rejected-guard-changes-nothing */
-__CPROVER_ensures((!g_exc && (__CPROVER_return_value==HANDLED_TRUE || __CPROVER_return_value==HANDLED_DEFERRED)) ==> g_phase==4)                                             /*@ob C02,C03.taken-runs-exit-action-entry */
+__CPROVER_ensures((!g_exc && __CPROVER_return_value==HANDLED_GUARD_REJECT) ==> (HAS_GUARD && g_phase==0 && fsm->m_states[region_index]==CUR && g_act[g_cur]==1))               /*@ob C02,C03,C01,C06.rejected-guard-changes-nothing */
+__CPROVER_ensures((!g_exc && (__CPROVER_return_value==HANDLED_TRUE || __CPROVER_return_value==HANDLED_DEFERRED)) ==> g_phase==4)                                             /*@ob C02,C03,C06.taken-runs-exit-action-entry */
 __CPROVER_ensures((!g_exc && (__CPROVER_return_value==HANDLED_TRUE || __CPROVER_return_value==HANDLED_DEFERRED)) ==> fsm->m_states[region_index]==NXT)                       /*@ob C19,C03,C02.after-transition-target-is-active */
 __CPROVER_ensures((!g_exc && (__CPROVER_return_value==HANDLED_TRUE || __CPROVER_return_value==HANDLED_DEFERRED)) ==> (g_act[g_nxt]==1 && (NXT==CUR || g_act[g_cur]==0)))          /*@ob C03,C02.ledger-agrees-with-active-state */
 __CPROVER_ensures(!g_exc ==> (__CPROVER_return_value==HANDLED_TRUE || __CPROVER_return_value==HANDLED_DEFERRED || __CPROVER_return_value==HANDLED_GUARD_REJECT || __CPROVER_return_value==HANDLED_FALSE))
@@ -168,7 +168,7 @@ __CPROVER_requires(__CPROVER_is_fresh(fsm,sizeof(*fsm)))
 __CPROVER_requires(g_phase==0 && !g_exc && g_guard_calls==0)
 __CPROVER_requires(ROW_SM_INTERNAL || state==CUR)
 __CPROVER_assigns(g_phase, g_exc, g_guard_calls)                                                     /*@ob C02,C03.internal-row-frame */
-__CPROVER_ensures((!g_exc && __CPROVER_return_value==HANDLED_GUARD_REJECT) ==> (HAS_GUARD && g_phase==0))    /*@ob C02,C03,C01.rejected-guard-changes-nothing */
-__CPROVER_ensures((!g_exc && __CPROVER_return_value!=HANDLED_GUARD_REJECT) ==> (g_phase==(HAS_ACTION?3:(HAS_GUARD?1:0)) && (__CPROVER_return_value==HANDLED_TRUE || __CPROVER_return_value==HANDLED_DEFERRED)))  /*@ob C02,C01.internal-row-guard-then-action */
+__CPROVER_ensures((!g_exc && __CPROVER_return_value==HANDLED_GUARD_REJECT) ==> (HAS_GUARD && g_phase==0))    /*@ob C02,C03,C01,C06.rejected-guard-changes-nothing */
+__CPROVER_ensures((!g_exc && __CPROVER_return_value!=HANDLED_GUARD_REJECT) ==> (g_phase==(HAS_ACTION?3:(HAS_GUARD?1:0)) && (__CPROVER_return_value==HANDLED_TRUE || __CPROVER_return_value==HANDLED_DEFERRED)))  /*@ob C02,C01,C06.internal-row-guard-then-action */
 __CPROVER_ensures(g_guard_calls <= 1)                                                                /*@ob C01,C02.guard-at-most-once */
 ;
